@@ -14,6 +14,12 @@ Property on the real code (no model involved):
     gives a breadth-first visit of the textbook multitape configuration tree (dict tapes, blank
     elsewhere; compared by head-relative view, block d = permutation of the depth-d multiset):
     the oracle of C03 applied to the decoded sequence.
+Off the domain of the theorems (family `mark_alphabets`, open finding KEY_MARK): machines whose tape
+alphabet contains '^' / '_' and inputs containing them.  validate() does not reserve the marks and
+inputs are never checked, so these cases are inside the property's literal quantifier; the
+property fails on them (C17_mark_*_fails prove it on the model).  They are generated on every
+run: ASNTM_STEPS and the verdict pair are compared model vs. code exactly as on the domain, and
+the property's judgement is reported under the finding key.
 """
 from __future__ import annotations
 
@@ -27,14 +33,18 @@ from harness.common import Ctx, call, toks
 from harness.ops.C03 import oracle_mntm_check
 
 LEVEL = "proof"
-RULE = ("cases = (valid MNTM with 1–3 tapes, deterministic or not, tape alphabet without '^' and '_', input, "
+RULE = ("cases = (valid MNTM with 1–3 tapes, deterministic or not, input, "
         "number n of next() calls); corpus (F9: left move from the leftmost cell; F11: empty transition list; "
         "right moves past the end; all three directions on every tape), bounded-exhaustive tiny machines "
         "(1 tape: all tables with ≤2 rows over 2 states + final and {0,#}; 2 tapes: all one-row tables over "
-        "{0,#}), then shaped random machines; a case is non-trivial when the simulation yields ≥3 "
-        "configurations; distinct = distinct (definition, input, n)")
+        "{0,#}), then shaped random machines — all of these with tape alphabets and inputs without '^' and '_' — "
+        "and the family mark_alphabets (4 fixed probes + random machines over 9 tape alphabets containing '^' / "
+        "'_' and/or inputs containing them: the open finding C17:mark-symbol-in-alphabet-or-input); a case is "
+        "non-trivial when the simulation yields ≥3 configurations; distinct = distinct (definition, input, n)")
 ASSUMPTIONS = [
-    "the tape alphabet (and the input) contains neither '^' nor '_' (the simulation's head and separator marks)",
+    "the theorems' domain: the tape alphabet and the input contain neither '^' nor '_' (the simulation's head and "
+    "separator marks); outside it the property fails on the real code — open finding "
+    "C17:mark-symbol-in-alphabet-or-input, reproduced and reported as KNOWN-FINDING by every run",
     "symbols are single characters; halting is not assumed (bounded numbers of next() calls)",
 ]
 EXPLANATION = ("Theorems C17_* state decode∘encode = heads, splice(encode) = encode(apply moves) and verdict "
@@ -43,7 +53,18 @@ EXPLANATION = ("Theorems C17_* state decode∘encode = heads, splice(encode) = e
 
 DRV = "drv_tm"
 HD, SEP = "^", "_"
-DEFERRED: list = []
+# open finding (known_findings.json): the marks of the extended tape are not reserved
+KEY_MARK = "C17:mark-symbol-in-alphabet-or-input"
+HANG_CAP = 10         # predicted non-terminating next() calls actually run on the code, per run
+HANG_LIMIT = 0.25     # watchdog seconds for those
+
+
+def deferred(ctx: Ctx) -> list:
+    """Failures outside the literal quantifier (native run undecided within its budget), kept per run
+    on ctx and reported after the run only if no failure inside the quantifier was found."""
+    if not hasattr(ctx, "c17_deferred"):
+        ctx.c17_deferred = []
+    return ctx.c17_deferred
 
 
 def decode_ext(ext: str, blank: str):
@@ -64,7 +85,7 @@ def decode_ext(ext: str, blank: str):
 
 
 def check_sim(ctx: Ctx, m: MNTM, w: str, n: int, origin: str, native_budget: int = 0):
-    if E.gave_up():
+    if E.skip(ctx):
         return None
     drv = ctx.driver(DRV)
     enc, st = E.enc_mntm(m)
@@ -118,7 +139,7 @@ def check_sim(ctx: Ctx, m: MNTM, w: str, n: int, origin: str, native_budget: int
 
 def check_pair(ctx: Ctx, m: MNTM, w: str, n: int, origin: str):
     """Verdict of the native run (n calls) vs. the simulation (5n+10 calls)."""
-    if E.gave_up():
+    if E.skip(ctx):
         return None
     drv = ctx.driver(DRV)
     nys, nend = E.observe(m.read_input_stepwise(w), n)
@@ -149,7 +170,7 @@ def check_pair(ctx: Ctx, m: MNTM, w: str, n: int, origin: str):
         if origin == "replay":
             wrong.append(msg)
         else:
-            DEFERRED.append((f"MNTM on {w!r}: " + msg, case))
+            deferred(ctx).append((f"MNTM on {w!r}: " + msg, case))
             return
     if wrong:
         ctx.prop_fail(f"MNTM on {w!r}: " + "; ".join(wrong), case, None)
@@ -160,6 +181,127 @@ def check_pair(ctx: Ctx, m: MNTM, w: str, n: int, origin: str):
     ms = E.verdict_of(E.parse_run(drv.ask(toks("ASNTM_STEPS", enc, E.enc_word(w), ns, 1)), None)[1])
     if (mn, ms) != (vn, vs):
         ctx.corr_diff("VERDICT_PAIR", case, (vn, vs), (mn, ms))
+
+
+def _has_mark(m: MNTM, w: str) -> bool:
+    return bool({HD, SEP} & (set(m.tape_symbols) | set(w)))
+
+
+def check_mark(ctx: Ctx, m: MNTM, w: str, n: int, origin: str):
+    """Family `mark_alphabets`: the tape alphabet or the input contains '^' / '_' — inside the
+    property's literal quantifier (validate() does not reserve the marks, inputs are never checked)
+    but outside the domain of C17_verdict_char.
+    Correspondence, exactly as on the domain: ASNTM_STEPS (every yielded extended tape, head index,
+    generator end over 5n+10 calls) and the verdict pair, model vs. code — this is where the model's
+    Python slices with negative indices, a mark at index 0 and the splice fuel are exercised.
+    Property judgement (native verdict within n calls vs. simulation within 5n+10; nothing but
+    RejectionException): a failure here is the open finding KEY_MARK, reported under that key.
+    A next() that does not return (a written '^' is scanned again for ever) is predicted by the
+    model's fuel marker; such calls are run on the code under a short watchdog, a few per run."""
+    if E.skip(ctx):
+        return None
+    assert _has_mark(m, w)
+    drv = ctx.driver(DRV)
+    enc, st = E.enc_mntm(m)
+    ns = 5 * n + 10
+    mod = E.parse_run(drv.ask(toks("ASNTM_STEPS", enc, E.enc_word(w), ns, 0)),
+                      lambda t: (t.int(), t.int(), tuple(t.ints())))
+    mnat = E.verdict_of(E.parse_run(drv.ask(toks("MNTM_VISIT", enc, E.enc_word(w), n, 1)), None)[1])
+    hang = mod[1] == "raise AssertionError"  # the model's out-of-fuel marker (Model/TMSim.lean spliceFuelExn)
+    if hang:
+        if origin != "replay" and not origin.startswith("probe") and ctx.stats.get("mark_model_predicts_hang", 0) >= HANG_CAP:
+            ctx.stat("mark_predicted_hang_not_run")
+            return None
+        ctx.stat("mark_model_predicts_hang")
+        mod = (mod[0], "hang")
+    ys, end = (E.observe(m.read_input_as_ntm(w), ns, limit=HANG_LIMIT, count=False) if hang
+               else E.observe(m.read_input_as_ntm(w), ns))
+    if hang and end == "raise HarnessTimeout":
+        end = "hang"
+    nend = E.observe(m.read_input_stepwise(w), n)[1]
+    vn, vs = E.verdict_of(nend), ("crash:does-not-return" if end == "hang" else E.verdict_of(end))
+    ctx.case(("K", enc, w, n) if len(ys) >= 3 else None)
+    ctx.stat(origin)
+    ctx.stat("mark_sim_" + vs.replace(":", "_"))
+    if len(ys) >= 3:
+        ctx.stat("mark_sim_3+_yields")
+    if {HD, SEP} & set(w):
+        ctx.stat("mark_in_input")
+    if {HD, SEP} & set(m.tape_symbols):
+        ctx.stat("mark_in_tape_alphabet")
+    case = dict(kind="MARK", machine=repr(m), word=w, n=n)
+    # --- correspondence (no property judgement involved)
+    shape_ok = all(isinstance(y, (set, frozenset)) and len(y) == 1 for y in ys)
+    if not shape_ok:
+        ctx.corr_diff("ASNTM_STEPS", case, "a yielded value is not a singleton set", mod)
+    else:
+        cfgs = [next(iter(y)) for y in ys]
+        impl = ([(st(c.state), c.tape.current_position, tuple(ord(x) for x in c.tape.tape)) for c in cfgs], end)
+        if impl != mod:
+            ctx.corr_diff("ASNTM_STEPS", case, impl, mod)
+    ms = "crash:does-not-return" if hang else E.verdict_of(mod[1])
+    if (mnat, ms) != (vn, vs):
+        ctx.corr_diff("VERDICT_PAIR", case, (vn, vs), (mnat, ms))
+    # --- the property on the real code
+    wrong = []
+    if vn.startswith("crash"):
+        ctx.prop_fail(f"MNTM on {w!r}: native run raises {vn[6:]}", case, None)  # not this finding
+        return None
+    if vs.startswith("crash"):
+        wrong.append(f"native verdict {vn if vn != 'fuel' else 'undecided'} within {n} calls, the simulation "
+                     + ("does not return from next()" if end == "hang" else f"raises {vs[6:]}"))
+    elif vn in ("accept", "reject") and vs != vn:
+        wrong.append(f"native verdict {vn}, simulation {vs if vs != 'fuel' else 'undecided after %d calls' % ns}")
+    if wrong:
+        ctx.stat("mark_property_fails")
+        where = ("tape alphabet" if {HD, SEP} & set(m.tape_symbols) else "input")
+        ctx.prop_fail(f"MNTM with '^'/'_' in its {where} on {w!r}: " + "; ".join(wrong), case, KEY_MARK)
+    else:
+        ctx.stat("mark_property_holds")
+    return end
+
+
+def mark_probes(ctx: Ctx):
+    """The three replays of the open finding KEY_MARK, produced on every run."""
+    a = MNTM(states={"q0", "qf"}, input_symbols={"_"}, tape_symbols={"_", "#"}, n_tapes=1,
+             transitions={"q0": {("_",): [("qf", (("_", "R"),))]}},
+             initial_state="q0", blank_symbol="#", final_states={"qf"})
+    check_mark(ctx, a, "_", 5, "probe_mark")       # native accepts; simulation: MalformedExtendedTapeError
+    b = MNTM(states={"q0", "qf"}, input_symbols={"0"}, tape_symbols={"0", "#"}, n_tapes=1,
+             transitions={"q0": {("0",): [("qf", (("0", "R"),))]}},
+             initial_state="q0", blank_symbol="#", final_states={"qf"})
+    check_mark(ctx, b, "^", 5, "probe_mark")       # clean machine, input '^': native rejects
+    c = MNTM(states={"q0", "q1", "qf"}, input_symbols={"0"}, tape_symbols={"0", "^", "#"}, n_tapes=1,
+             transitions={"q0": {("0",): [("q1", (("^", "R"),))]}, "q1": {("#",): [("qf", (("#", "N"),))]}},
+             initial_state="q0", blank_symbol="#", final_states={"qf"})
+    check_mark(ctx, c, "0", 5, "probe_mark")       # writes '^': native accepts
+    d = MNTM(states={"q0", "q1", "qf"}, input_symbols={"0"}, tape_symbols={"0", "^", "#"}, n_tapes=1,
+             transitions={"q0": {("0",): [("q1", (("^", "L"),))]}, "q1": {("#",): [("qf", (("#", "N"),))]}},
+             initial_state="q0", blank_symbol="#", final_states={"qf"})
+    check_mark(ctx, d, "0", 5, "probe_mark")       # writes '^' moving left: next() never returns
+
+
+def mark_family(ctx: Ctx, count: int):
+    rng = ctx.rng
+    for _ in range(count):
+        dirty_alpha = rng.random() < 0.75
+        m = E.rand_mntm(rng, n_tapes=rng.choice([1, 1, 2, 2, 3]),
+                        alphabets=E.MARK_ALPHABETS if dirty_alpha else None)
+        for _ in range(2):
+            # marks in the alphabet: mostly clean inputs (the marks are then only *written* by the machine,
+            # so the simulation gets past its first yield); clean alphabet: the input carries a mark
+            r = rng.random()
+            pool = set(m.tape_symbols)
+            if dirty_alpha and r < 0.6:
+                pool = (pool - {HD, SEP}) or pool
+            elif not dirty_alpha or r < 0.75:
+                pool = pool | {HD, SEP}
+            pool = sorted(pool)
+            w = "".join(rng.choice(pool) for _ in range(rng.choice([0, 1, 1, 2, 2, 3, 4])))
+            if not _has_mark(m, w):
+                k = rng.randrange(len(w) + 1)
+                w = w[:k] + rng.choice([HD, SEP]) + w[k:]
+            check_mark(ctx, m, w, rng.choice([4, 8, 15]), "mark_alphabets")
 
 
 def check_read_ext(ctx: Ctx, ext: str, origin: str):
@@ -228,7 +370,9 @@ def tiny_two_tape_tables(max_rows: int):
 def run(ctx: Ctx):
     rng = ctx.rng
     thorough = ctx.thorough()
+    E.reset_watchdog()
     corpus(ctx)
+    mark_probes(ctx)
     # 1. bounded-exhaustive
     kw2 = dict(states={"q0", "q1", "qf"}, input_symbols={"0"}, tape_symbols={"0", "#"}, initial_state="q0",
                blank_symbol="#", final_states={"qf"})
@@ -284,14 +428,20 @@ def run(ctx: Ctx):
             w = E.rand_input(rng, m)
             check_sim(ctx, m, w, rng.choice([2, 4, 8, 16, 30]), "random")
             check_pair(ctx, m, w, rng.choice([6, 15, 40]), "random_pair")
+    # 2b. off the domain of the theorems: marks in the tape alphabet / in the input (open finding)
+    mark_family(ctx, ctx.budget(600, 6000))
     # 3. _read_extended_tape on random strings over {0,1,#,^,_}
     for _ in range(ctx.budget(400, 8000)):
         k = rng.randrange(0, 9)
         ext = "".join(rng.choice("01#^^__") for _ in range(k))
         check_read_ext(ctx, ext, "random_read_ext")
-    if DEFERRED and ctx.n_prop_fails == 0:
-        for what, case in DEFERRED[:50]:
+    # failures outside the literal quantifier: reported when no failure inside it was found (hits of
+    # the open finding KEY_MARK are produced on every run and do not count here)
+    ctx.stat("deferred_outside_quantifier", len(deferred(ctx)))
+    if deferred(ctx) and not any(f["key"] is None for f in ctx.prop_fails):
+        for what, case in deferred(ctx):
             ctx.prop_fail(what, case, None)
+    E.report_watchdog(ctx)
 
 
 def replay(ctx: Ctx, path: str) -> int:
@@ -302,7 +452,9 @@ def replay(ctx: Ctx, path: str) -> int:
         check_read_ext(ctx, rp["ext"], "replay")
     else:
         m = eval(rp["machine"], {"MNTM": MNTM, "frozenset": frozenset})  # repr() produced by this harness
-        if kind == "SIM":
+        if kind == "MARK":
+            check_mark(ctx, m, rp["word"], rp["n"], "replay")
+        elif kind == "SIM":
             check_sim(ctx, m, rp["word"], rp["n"], "replay")
         else:
             check_pair(ctx, m, rp["word"], rp["n"], "replay")
